@@ -19,6 +19,8 @@ MASK = (1 << 64) - 1
 DEFAULT_SEED = 20260921
 VERIF_DIR = os.path.dirname(os.path.dirname(os.path.abspath(__file__)))
 TAPE_CAP = 4096
+# evidence/ and replays/ go here (a scratch dir for mutant runs, so that they never touch the committed evidence)
+OUT_DIR = os.environ.get("TVSIM_OUT", VERIF_DIR)
 
 
 def splitmix64(x):
@@ -478,7 +480,7 @@ def minimise(runfn, prop, tape_values, target, budget_s=30.0, max_cand=400):
 def write_replay(prop, seed, run, runfn, tape_values, target):
     r = run_isolated(runfn, prop, values=tape_values, keep_events=True)
     v = next((x for x in r.get("violations", []) if vclass(x) == target), None)
-    d = os.path.join(VERIF_DIR, "replays")
+    d = os.path.join(OUT_DIR, "replays")
     os.makedirs(d, exist_ok=True)
     tag = sig_hash([target, tape_values])[:8]
     path = os.path.join(d, f"{prop}-{seed}-{run}-{tag}.json")
